@@ -149,7 +149,12 @@ impl HeaderPrefix {
                 wrapped += 2 * max_entries;
             }
 
-            insert_count + total_inserted - wrapped
+            // A decoder which is more than `max_entries` insertions behind cannot reconstruct
+            // the count: the subtraction would underflow. Such a value cannot come from a
+            // conformant encoder (RFC 9204 section 4.5.1.1).
+            (insert_count + total_inserted)
+                .checked_sub(wrapped)
+                .ok_or(ParseError::Integer(prefix_int::Error::Overflow))?
         };
 
         let base = if required == 0 {
